@@ -40,13 +40,18 @@ type fieldPrint struct {
 type baselineDoc struct {
 	Funcs  map[string]fnPrint    `json:"funcs"`
 	Fields map[string]fieldPrint `json:"fields"`
+	// FuncKeys: key of Funcs -> (package, receiver type, name)
+	FuncKeys map[string][3]string `json:"func_keys,omitempty"`
+	// Inventory: full name of every function declared in the module on the
+	// reference tree (inline.go expands calls to functions not listed here)
+	Inventory []string `json:"inventory,omitempty"`
 }
 
 var (
 	baseMu      sync.Mutex
 	baseline    *baselineDoc
 	recordBase  bool
-	recorded    = &baselineDoc{Funcs: map[string]fnPrint{}, Fields: map[string]fieldPrint{}}
+	recorded    = &baselineDoc{Funcs: map[string]fnPrint{}, Fields: map[string]fieldPrint{}, FuncKeys: map[string][3]string{}}
 	renamesSeen []string
 	verifDirG   = "/verif"
 )
@@ -177,6 +182,7 @@ func (P *Prog) noteFunc(rel, typ, name string, fn *ssa.Function) {
 	}
 	baseMu.Lock()
 	recorded.Funcs[fnKey(rel, typ, name)] = fingerprintOf(fn)
+	recorded.FuncKeys[fnKey(rel, typ, name)] = [3]string{rel, typ, name}
 	baseMu.Unlock()
 }
 
@@ -296,7 +302,8 @@ func (P *Prog) renamedField(rel, typ string, path []string, st *types.Struct) *t
 	return nil
 }
 
-func writeRecordedBaseline(verif string) error {
+func writeRecordedBaseline(verif string, inventory []string) error {
+	recorded.Inventory = inventory
 	os.MkdirAll(filepath.Join(verif, "baseline"), 0o755)
 	b, _ := json.MarshalIndent(recorded, "", " ")
 	return os.WriteFile(filepath.Join(verif, "baseline", "fingerprints.json"), b, 0o644)
